@@ -218,8 +218,29 @@ func skipHarness(maxLen int) {
 	vrt.Assert("well-formed => exact length", vrt.Implies(ok, vrt.And(err == nil, got == rn)))
 }
 
-// H18_Skip: every wire type, every byte string up to 5 bytes (quick).
-func H18_Skip() { skipHarness(5) }
+// H18_SkipLongPrefix: length-delimited and counted fields whose length / count
+// varint is 9 or 10 bytes long (values of 2^56 and above, where signed
+// arithmetic on the end offset overflows).
+func H18_SkipLongPrefix() {
+	wt := 2 + vrt.Choice("wt", 2)
+	pl := 9 + vrt.Choice("prefix", 2)
+	rest := vrt.Choice("rest", 3)
+	data := vrt.Bytes("d", pl+rest)
+	for i := 0; i < pl-1; i++ {
+		vrt.Assume(data[i] >= 0x80)
+	}
+	vrt.Assume(data[pl-1] < 0x80)
+	vrt.LoopBound(pl + rest + 3)
+	got, err := plenccore.Skip(data, plenccore.WireType(wt))
+	rn, ok := refSkip(data, wt)
+	vrt.Observe("got", uint64(int64(got)))
+	vrt.Assert("malformed or truncated => error", vrt.Implies(!ok, err != nil))
+	vrt.Assert("nil error => within input", vrt.Implies(err == nil, vrt.And(got > 0, got <= len(data))))
+	vrt.Assert("well-formed => exact length", vrt.Implies(ok, vrt.And(err == nil, got == rn)))
+}
 
-// H18_Skip_T: up to 8 bytes (thorough).
-func H18_Skip_T() { skipHarness(8) }
+// H18_Skip: every wire type, every byte string up to 6 bytes (quick).
+func H18_Skip() { skipHarness(6) }
+
+// H18_Skip_T: up to 10 bytes (thorough).
+func H18_Skip_T() { skipHarness(10) }
